@@ -35,7 +35,7 @@ ModeProps(m) ==
       [] m = "parintern" -> {"C08"}
       [] m \in {"parstruct", "paralloc"} -> {"C24"}
       [] m \in {"parwrite", "parwritefix", "parwritenest"} -> {"C20"}
-      [] m \in {"parcancel", "parcancelfix", "parcancelnest"} -> {"C21"}
+      [] m \in {"parcancel", "parcancelfix", "parcancelnest", "parcancelacc"} -> {"C21"}
       [] m \in {"parpanic", "parpaniccancel"} -> {"C22"}
       [] OTHER -> {"C16"}
 
@@ -85,7 +85,8 @@ OnRet ==
         s1 == [st EXCEPT !.cur = Put(st.cur, T, [op |-> "none"]), !.stack = Put(st.stack, T, <<>>),
                          !.mustpw = st.mustpw \ {T}, !.mustloc = st.mustloc \ {T}, !.armed = st.armed \ {T},
                          !.unwinding = st.unwinding \ {T}, !.cbin = st.cbin \ {T},
-                         !.panicked = st.panicked \/ (ev.ok = 0 /\ ev.kind \notin {"cancel_pw", "cancel_local"})]
+                         \* (a propagated panic is a consequence, not a panic of its own: it must not excuse later ones)
+                         !.panicked = st.panicked \/ (ev.ok = 0 /\ ev.kind \notin {"cancel_pw", "cancel_local", "cancel_pp"})]
     IN
     IF c.op = "get" THEN
         LET semr == st.sem[c.f] IN
